@@ -8,7 +8,7 @@ PROP = "C04"
 def run(tier, seed, t0):
     return _sess.run_session_check(
         PROP, tier, seed, t0,
-        families=[("rpc", 400, 6000), ("chanclose", 60, 800)],
+        families=[("rpc", 400, 6000), ("chanclose", 60, 800), ("mixed", 200, 3000)],
         mc_jobs=[("MC_Conn_rpc.cfg", None, None), ("MC_Conn_rpc_bug.cfg", "Pairing", None),
                  ("MC_Conn_rpc3.cfg", None, "thorough")],
         rule="sessions of 2-4 channels on separate threads, 1-3 rounds of synchronous operations (declare, bind, unbind, "
@@ -18,6 +18,9 @@ def run(tier, seed, t0):
              "outstanding on different channels at once; distinct = distinct step lists",
         nontrivial=lambda s: sum(1 for x in s["steps"] if x.get("async")) >= 2,
         assumptions=_sess.COMMON_ASSUMPTIONS + [
+            "plus 'mixed' sessions: seeded interleavings of everything at once (RPCs, nowait calls, multi-frame publishes at "
+            "frame_max 4096, consumers, listeners, withheld replies, server deliveries/confirms/returns/cancels/channel closes, "
+            "transport stalls, read and write segmentation)",
             "TLC (MC_Conn_rpc) checks Pairing for 2 channels x 2 calls (thorough 3 channels) under every answer order"])
 
 
